@@ -24,10 +24,10 @@ STATE_MEASURE = "distinct (streams x channels x width x byte orders x lengths x 
 COMPONENTS = {"real": ["smpl_extract.transcoder (make_transcoder, Passthrough/PipelineTranscoder)", "smpl_extract.data_streams", "numpy"],
               "stub": ["source streams are SimFiles"]}
 ASSUMPTIONS = ["destination encoding is little-endian with the sources' width and the total channel count (what export_wav asks for)"]
-NOT_COVERED = ["host byte order: numpy's native order cannot be switched and an emulation with explicit '>' dtypes is not preserved by np.vstack; "
-               "any alarm from such an arm would be an artefact of the harness"]
+NOT_COVERED = ["a really big-endian numpy: the host-byte-order arm patches the tool's module-level system_byte_order (what the property's quantifier "
+               "calls 'patched'); numpy keeps decoding natively, so the arm checks that the tool's swap decisions cancel out, not numpy on a BE CPU"]
 EXPECTED_PROBES = ["mixed_byte_order", "interleaved_stream", "unequal_lengths", "partial_trailing_frame", "zero_length_source", "passthrough",
-                   "eof_on_block_edge", "eof_inside_block", "one_frame_blocks", "width_1", "width_4"]
+                   "eof_on_block_edge", "eof_inside_block", "one_frame_blocks", "width_1", "width_4", "host_byte_order_big"]
 SHRINK = {"max_attempts": 400, "max_seconds": 30.0, "simple_values": {"block": [4096], "big": [False]}}
 KNOBS = [1, 2, 3, 4, 6, 8, 16, 64, 510, 4096, 4096, 8192, 65536]
 
@@ -48,7 +48,7 @@ def gen(rng: random.Random, tier: str, index: int) -> dict:
         # make EOF land exactly on / just around a block edge
         tot = max(s["ch"] for s in streams) * width
         block = max(1, (base // rng.randint(1, 4)) * tot + rng.choice([0, 0, -1, 1]))
-    return {"width": width, "streams": streams, "block": block}
+    return {"width": width, "streams": streams, "block": block, "host_big": rng.random() < 0.3}
 
 
 def _source_bytes(st: dict, width: int):
@@ -82,6 +82,12 @@ def _transcode(sc: dict, block: int, res: RunResult):
     out = bytearray()
     exc = None
     nblocks = 0
+    import smpl_extract.transcoder as _tr
+    saved_host = _tr.system_byte_order
+    if sc.get("host_big"):
+        # the tool's notion of the host byte order is a module-level name: patch it.  Decoding and encoding both use
+        # numpy's native dtypes, so the byte-level result must stay the same whatever the tool believes the host is.
+        _tr.system_byte_order = Endianess.BIG
     with knobs(block), StepClock(20_000_000) as clk:
         try:
             tr = make_transcoder(dss, dest)
@@ -92,6 +98,7 @@ def _transcode(sc: dict, block: int, res: RunResult):
         except Exception as e:      # noqa: BLE001
             exc = "%s: %s" % (type(e).__name__, str(e)[:120])
             kind = "?"
+    _tr.system_byte_order = saved_host
     res.steps += clk.steps
     res.io_events += sum(s.io_events for s in sfs)
     return bytes(out), exc, kind, nblocks, [s.event_digest() for s in sfs]
@@ -119,6 +126,8 @@ def run(sc: dict) -> RunResult:
     if shortest == 0:
         res.probes["zero_length_source"] += 1
     res.probes["width_%d" % width] += 1
+    if sc.get("host_big"):
+        res.probes["host_byte_order_big"] += 1
     bf = max(1, block // (max(s["ch"] for s in streams) * width))
     if bf == 1:
         res.probes["one_frame_blocks"] += 1
